@@ -105,26 +105,27 @@ theorem Sim.pure {α} (a : α) : Sim (pure a : SM α) (Res.ok a) := Sim.of_eq rf
 theorem Sim.ok_inv {α} {x : SM α} {y : Res α} (h : Sim x y) (a : α) (hx : x = .ok a) : y = .ok a := h.1.1 a hx
 
 /-- folds with an invariant on the model's side -/
-theorem Sim.foldlM {α σ} (Inv : σ → Prop) (f : σ → α → SM σ) (g : σ → α → Res σ)
-    (hstep : ∀ st a, Inv st → Sim (f st a) (g st a) ∧ ∀ st', g st a = .ok st' → Inv st') :
-    ∀ (l : List α) (s : σ), Inv s → Sim (l.foldlM f s) (l.foldlM g s) ∧ ∀ s', l.foldlM g s = .ok s' → Inv s' := by
+theorem Sim.foldlM {α σ} (Inv : σ → Prop) (f : σ → α → SM σ) (g : σ → α → Res σ) :
+    ∀ (l : List α), (∀ st a, a ∈ l → Inv st → Sim (f st a) (g st a) ∧ ∀ st', g st a = .ok st' → Inv st') →
+      ∀ (s : σ), Inv s → Sim (l.foldlM f s) (l.foldlM g s) ∧ ∀ s', l.foldlM g s = .ok s' → Inv s' := by
   intro l
   induction l with
   | nil =>
-    intro s hs
+    intro _ s hs
     refine ⟨Sim.of_eq rfl, fun s' h => ?_⟩
     simp only [List.foldlM_nil, Res.pure_eq] at h
     cases h; exact hs
   | cons a t ih =>
-    intro s hs
+    intro hstep s hs
+    have ih' := ih (fun st b hb => hstep st b (List.mem_cons_of_mem _ hb))
     simp only [List.foldlM_cons]
-    obtain ⟨h1, h2⟩ := hstep s a hs
-    refine ⟨Sim.bind h1 (fun st' hst => (ih st' (h2 st' hst)).1), fun s' h => ?_⟩
+    obtain ⟨h1, h2⟩ := hstep s a List.mem_cons_self hs
+    refine ⟨Sim.bind h1 (fun st' hst => (ih' st' (h2 st' hst)).1), fun s' h => ?_⟩
     cases hg : g s a with
     | ok st' =>
       rw [hg] at h
       simp only [res_bind_ok] at h
-      exact (ih st' (h2 st' hg)).2 s' h
+      exact (ih' st' (h2 st' hg)).2 s' h
     | err => rw [hg] at h; cases h
     | panic => rw [hg] at h; cases h
     | outOfFuel => rw [hg] at h; cases h
@@ -219,10 +220,10 @@ theorem checkLimits_eq (cfg : Config) (F : Fork) (block : SignedBlock) :
     simp only [toRes_bind, toRes_require, fork_ge, Fork.toNat, toRes_ite, toRes_pure, ge_iff_le] <;> rfl
 
 
-/-- one operation kind: under the invariant the model simulates the specification, keeps the invariant, and (`frame`)
-leaves the deposit bookkeeping of the state alone -/
-def Step {β} (Inv : State → Prop) (frame : Bool) (f : State → β → SM State) (g : State → β → Res State) : Prop :=
-  ∀ st x, Inv st → Sim (f st x) (g st x) ∧
+/-- one operation kind, for the operations `l` of the block: under the invariant the model simulates the specification,
+keeps the invariant, and (`frame`) leaves the deposit bookkeeping of the state alone -/
+def Step {β} (Inv : State → Prop) (frame : Bool) (l : List β) (f : State → β → SM State) (g : State → β → Res State) : Prop :=
+  ∀ st x, x ∈ l → Inv st → Sim (f st x) (g st x) ∧
     ∀ st', g st x = .ok st' → Inv st' ∧
       (frame = true → st'.eth1_data = st.eth1_data ∧ st'.eth1_deposit_index = st.eth1_deposit_index)
 
@@ -234,39 +235,40 @@ structure OpSteps (cfg : Config) (block : SignedBlock) (F : Fork) (Inv : Ctx →
   header : ∀ ctx st, Inv ctx st →
     Sim (Block.process_block_header cfg st block) (ofOpt ctx.proposer >>= fun p => processHeader st block p) ∧
     ∀ st', (ofOpt ctx.proposer >>= fun p => processHeader st block p) = .ok st' → Inv ctx st'
-  payload : ∀ ctx payload, Step (Inv ctx) false (fun st (_ : Unit) => Block.process_execution_payload cfg st block payload)
-    (fun st _ => processExecutionPayload cfg st block payload)
-  withdrawals : ∀ ctx payload, Step (Inv ctx) false (fun st (_ : Unit) => Block.process_withdrawals cfg st payload)
-    (fun st _ => processWithdrawals cfg st payload)
-  randao : ∀ ctx, Step (Inv ctx) false (fun st (_ : Unit) => Block.process_randao cfg st block) (fun st _ => processRandaoReveal cfg ctx st block)
-  eth1 : ∀ ctx, Step (Inv ctx) false (fun st (_ : Unit) => Block.process_eth1_data cfg st block) (fun st _ => processEth1Vote cfg st block.eth1_data)
-  proposerSlashing : ∀ ctx, Step (Inv ctx) true (Block.process_proposer_slashing cfg) (processProposerSlashing cfg ctx)
-  attesterSlashing : ∀ ctx, Step (Inv ctx) true (Block.process_attester_slashing cfg) (processAttesterSlashing cfg ctx)
-  attestation : ∀ ctx, Step (Inv ctx) true (Block.process_attestation cfg)
+  payload : ∀ ctx payload, block.execution_payload = some payload →
+    Step (Inv ctx) false [()] (fun st _ => Block.process_execution_payload cfg st block payload)
+      (fun st _ => processExecutionPayload cfg st block payload)
+  withdrawals : ∀ ctx payload, block.execution_payload = some payload →
+    Step (Inv ctx) false [()] (fun st _ => Block.process_withdrawals cfg st payload) (fun st _ => processWithdrawals cfg st payload)
+  randao : ∀ ctx, Step (Inv ctx) false [()] (fun st _ => Block.process_randao cfg st block) (fun st _ => processRandaoReveal cfg ctx st block)
+  eth1 : ∀ ctx, Step (Inv ctx) false [()] (fun st _ => Block.process_eth1_data cfg st block) (fun st _ => processEth1Vote cfg st block.eth1_data)
+  proposerSlashing : ∀ ctx, Step (Inv ctx) true block.proposer_slashings (Block.process_proposer_slashing cfg) (processProposerSlashing cfg ctx)
+  attesterSlashing : ∀ ctx, Step (Inv ctx) true block.attester_slashings (Block.process_attester_slashing cfg) (processAttesterSlashing cfg ctx)
+  attestation : ∀ ctx, Step (Inv ctx) true block.attestations (Block.process_attestation cfg)
     (if F = .phase0 then processAttestationPhase0 cfg ctx else processAttestationAltair cfg ctx)
-  deposit : ∀ ctx st d, Inv ctx st →
+  deposit : ∀ ctx st d, d ∈ block.deposits → Inv ctx st →
     Sim (Block.process_deposit cfg st d) (processDeposit cfg ctx st d >>= fun r => Res.ok r.2) ∧
     ∀ r, processDeposit cfg ctx st d = .ok r → Inv r.1 r.2
-  exit : ∀ ctx, Step (Inv ctx) false (Block.process_voluntary_exit cfg) (processVoluntaryExit cfg ctx)
-  blsChange : ∀ ctx, Step (Inv ctx) false (Block.process_bls_to_execution_change cfg) (fun st op => processBLSToExecutionChange st op)
-  sync : ∀ ctx agg, Step (Inv ctx) false (fun st (_ : Unit) => Block.process_sync_aggregate cfg st agg)
-    (fun st _ => processSyncAggregate cfg ctx st agg)
+  exit : ∀ ctx, Step (Inv ctx) false block.voluntary_exits (Block.process_voluntary_exit cfg) (processVoluntaryExit cfg ctx)
+  blsChange : ∀ ctx, Step (Inv ctx) false block.bls_to_execution_changes (Block.process_bls_to_execution_change cfg)
+    (fun st op => processBLSToExecutionChange st op)
+  sync : ∀ ctx agg, block.sync_aggregate = some agg →
+    Step (Inv ctx) false [()] (fun st _ => Block.process_sync_aggregate cfg st agg) (fun st _ => processSyncAggregate cfg ctx st agg)
 
-theorem Step.fold {β} {Inv : State → Prop} {frame : Bool} {f : State → β → SM State} {g : State → β → Res State}
-    (h : Step Inv frame f g) (E : Eth1Data) (I : Nat) (l : List β) (s : State)
+theorem Step.fold {β} {Inv : State → Prop} {frame : Bool} {l : List β} {f : State → β → SM State} {g : State → β → Res State}
+    (h : Step Inv frame l f g) (E : Eth1Data) (I : Nat) (s : State)
     (hs : Inv s ∧ (frame = true → s.eth1_data = E ∧ s.eth1_deposit_index = I)) :
     Sim (l.foldlM f s) (l.foldlM g s) ∧
     ∀ s', l.foldlM g s = .ok s' → Inv s' ∧ (frame = true → s'.eth1_data = E ∧ s'.eth1_deposit_index = I) := by
-  apply Sim.foldlM (fun st => Inv st ∧ (frame = true → st.eth1_data = E ∧ st.eth1_deposit_index = I)) f g _ l s hs
-  intro st x ⟨hi, hfr⟩
-  obtain ⟨h1, h2⟩ := h st x hi
+  apply Sim.foldlM (fun st => Inv st ∧ (frame = true → st.eth1_data = E ∧ st.eth1_deposit_index = I)) f g l _ s hs
+  intro st x hx ⟨hi, hfr⟩
+  obtain ⟨h1, h2⟩ := h st x hx hi
   refine ⟨h1, fun st' hst' => ?_⟩
   obtain ⟨h3, h4⟩ := h2 st' hst'
   refine ⟨h3, fun hf => ?_⟩
   obtain ⟨e1, e2⟩ := h4 hf
   obtain ⟨e3, e4⟩ := hfr hf
   exact ⟨by rw [e1, e3], by rw [e2, e4]⟩
-
 
 theorem sm_assoc3 {α β} (x1 : SM α) (f2 f3 : α → SM α) (F : α → SM β) :
     (x1 >>= fun a => f2 a >>= fun b => f3 b >>= F) = ((x1 >>= fun a => f2 a >>= f3) >>= F) := by
@@ -299,21 +301,22 @@ theorem Sim.delay3 {α β} {x1 : SM α} {y1 : Res α} {f2 f3 : α → SM α} {g2
 
 
 theorem deposits_fold {cfg : Config} {block : SignedBlock} {F : Fork} {Inv : Ctx → State → Prop} (H : OpSteps cfg block F Inv) :
-    ∀ (l : List Deposit) (ctx : Ctx) (st : State), Inv ctx st →
+    ∀ (l : List Deposit), (∀ d ∈ l, d ∈ block.deposits) → ∀ (ctx : Ctx) (st : State), Inv ctx st →
       Sim (l.foldlM (Block.process_deposit cfg) st)
         (l.foldlM (fun (acc : Ctx × State) d => processDeposit cfg acc.1 acc.2 d) (ctx, st) >>= fun r => Res.ok r.2) ∧
       ∀ r, l.foldlM (fun (acc : Ctx × State) d => processDeposit cfg acc.1 acc.2 d) (ctx, st) = .ok r → Inv r.1 r.2 := by
   intro l
   induction l with
   | nil =>
-    intro ctx st hi
+    intro _ ctx st hi
     refine ⟨Sim.of_eq rfl, fun r hr => ?_⟩
     simp only [List.foldlM_nil, Res.pure_eq] at hr
     cases hr; exact hi
   | cons d t ih =>
-    intro ctx st hi
+    intro hsub ctx st hi
+    have ih := ih (fun x hx => hsub x (List.mem_cons_of_mem _ hx))
     simp only [List.foldlM_cons]
-    obtain ⟨h1, h2⟩ := H.deposit ctx st d hi
+    obtain ⟨h1, h2⟩ := H.deposit ctx st d (hsub d List.mem_cons_self) hi
     constructor
     · rw [res_bind_assoc]
       apply Sim.bind_proj Prod.snd h1
@@ -348,7 +351,7 @@ theorem preDeposits_sim {cfg : Config} {block : SignedBlock} {F : Fork} {Inv : C
             else List.foldlM (processAttestationAltair cfg ctx) b block.attestations)) = .ok c →
       Inv ctx c ∧ (true = true → c.eth1_data = st.eth1_data ∧ c.eth1_deposit_index = st.eth1_deposit_index) := by
   intro s0 hs0
-  obtain ⟨p1, p2⟩ := (H.proposerSlashing ctx).fold st.eth1_data st.eth1_deposit_index block.proposer_slashings s0 hs0
+  obtain ⟨p1, p2⟩ := (H.proposerSlashing ctx).fold st.eth1_data st.eth1_deposit_index s0 hs0
   have hatt : ∀ b, Inv ctx b → (if b.fork = Fork.phase0 then List.foldlM (processAttestationPhase0 cfg ctx) b block.attestations
             else List.foldlM (processAttestationAltair cfg ctx) b block.attestations) =
           List.foldlM (if F = .phase0 then processAttestationPhase0 cfg ctx else processAttestationAltair cfg ctx) b block.attestations := by
@@ -358,23 +361,23 @@ theorem preDeposits_sim {cfg : Config} {block : SignedBlock} {F : Fork} {Inv : C
   constructor
   · apply Sim.bind p1
     intro a ha
-    obtain ⟨q1, q2⟩ := (H.attesterSlashing ctx).fold st.eth1_data st.eth1_deposit_index block.attester_slashings a (p2 a ha)
+    obtain ⟨q1, q2⟩ := (H.attesterSlashing ctx).fold st.eth1_data st.eth1_deposit_index a (p2 a ha)
     apply Sim.bind q1
     intro b hb
     rw [hatt b (q2 b hb).1]
-    exact ((H.attestation ctx).fold st.eth1_data st.eth1_deposit_index block.attestations b (q2 b hb)).1
+    exact ((H.attestation ctx).fold st.eth1_data st.eth1_deposit_index b (q2 b hb)).1
   · intro c hc
     cases ha : List.foldlM (processProposerSlashing cfg ctx) s0 block.proposer_slashings with
     | ok a =>
       rw [ha] at hc
       simp only [res_bind_ok] at hc
-      obtain ⟨q1, q2⟩ := (H.attesterSlashing ctx).fold st.eth1_data st.eth1_deposit_index block.attester_slashings a (p2 a ha)
+      obtain ⟨q1, q2⟩ := (H.attesterSlashing ctx).fold st.eth1_data st.eth1_deposit_index a (p2 a ha)
       cases hb : List.foldlM (processAttesterSlashing cfg ctx) a block.attester_slashings with
       | ok b =>
         rw [hb] at hc
         simp only [res_bind_ok] at hc
         rw [hatt b (q2 b hb).1] at hc
-        exact ((H.attestation ctx).fold st.eth1_data st.eth1_deposit_index block.attestations b (q2 b hb)).2 c hc
+        exact ((H.attestation ctx).fold st.eth1_data st.eth1_deposit_index b (q2 b hb)).2 c hc
       | err => rw [hb] at hc; cases hc
       | panic => rw [hb] at hc; cases hc
       | outOfFuel => rw [hb] at hc; cases hc
@@ -412,18 +415,18 @@ theorem operations_sim {cfg : Config} {block : SignedBlock} {F : Fork} {Inv : Ct
     · trivial
   · intro c hc
     obtain ⟨hic, _⟩ := hpost c hc
-    obtain ⟨d1, d2⟩ := deposits_fold H block.deposits ctx c hic
+    obtain ⟨d1, d2⟩ := deposits_fold H block.deposits (fun _ h => h) ctx c hic
     apply Sim.bind_proj Prod.snd d1
     intro r hr
     have hir := d2 r hr
-    obtain ⟨e1, e2⟩ := (H.exit r.1).fold st.eth1_data st.eth1_deposit_index block.voluntary_exits r.2 ⟨hir, fun h => by cases h⟩
+    obtain ⟨e1, e2⟩ := (H.exit r.1).fold st.eth1_data st.eth1_deposit_index r.2 ⟨hir, fun h => by cases h⟩
     apply Sim.bind e1
     intro s5 hs5
     have hi5 := (e2 s5 hs5).1
     rw [H.fork r.1 s5 hi5]
     by_cases hcap : F ≥ Fork.capella
     · simp only [hcap, if_true]
-      obtain ⟨b1, b2⟩ := (H.blsChange r.1).fold st.eth1_data st.eth1_deposit_index block.bls_to_execution_changes s5 ⟨hi5, fun h => by cases h⟩
+      obtain ⟨b1, b2⟩ := (H.blsChange r.1).fold st.eth1_data st.eth1_deposit_index s5 ⟨hi5, fun h => by cases h⟩
       have hid : ∀ y : Res State, (y >>= fun a => Res.ok a) = y := by intro y; cases y <;> rfl
       simp only [Res.pure_eq, res_bind_ok]
       rw [hid]
@@ -462,13 +465,13 @@ theorem operations_inv {cfg : Config} {block : SignedBlock} {F : Fork} {Inv : Ct
         | false => simp only [Bool.false_eq_true, if_false, if_true] at h; cases h
         | true =>
           simp only [if_true] at h
-          obtain ⟨_, d2⟩ := deposits_fold H block.deposits ctx c hic
+          obtain ⟨_, d2⟩ := deposits_fold H block.deposits (fun _ h => h) ctx c hic
           cases hd : List.foldlM (fun (acc : Ctx × State) d => processDeposit cfg acc.1 acc.2 d) (ctx, c) block.deposits with
           | ok x =>
             rw [hd] at h
             simp only [res_bind_ok] at h
             have hix := d2 x hd
-            obtain ⟨_, e2⟩ := (H.exit x.1).fold st.eth1_data st.eth1_deposit_index block.voluntary_exits x.2 ⟨hix, fun h => by cases h⟩
+            obtain ⟨_, e2⟩ := (H.exit x.1).fold st.eth1_data st.eth1_deposit_index x.2 ⟨hix, fun h => by cases h⟩
             cases he : List.foldlM (processVoluntaryExit cfg x.1) x.2 block.voluntary_exits with
             | ok s5 =>
               rw [he] at h
@@ -477,7 +480,7 @@ theorem operations_inv {cfg : Config} {block : SignedBlock} {F : Fork} {Inv : Ct
               rw [H.fork x.1 s5 hi5] at h
               by_cases hcap : F ≥ Fork.capella
               · simp only [hcap, if_true] at h
-                obtain ⟨_, b2⟩ := (H.blsChange x.1).fold st.eth1_data st.eth1_deposit_index block.bls_to_execution_changes s5 ⟨hi5, fun h => by cases h⟩
+                obtain ⟨_, b2⟩ := (H.blsChange x.1).fold st.eth1_data st.eth1_deposit_index s5 ⟨hi5, fun h => by cases h⟩
                 cases hb : List.foldlM (fun s op => processBLSToExecutionChange s op) s5 block.bls_to_execution_changes with
                 | ok s6 =>
                   rw [hb] at h
@@ -511,8 +514,8 @@ theorem Sim.bind2 {α β γ} {x : SM α} {y0 : Res γ} {y1 : γ → Res α} {f :
 
 /-- `Step` for an operation without an argument, as `Sim` + invariant -/
 theorem Step.unit {Inv : State → Prop} {frame : Bool} {f : State → Unit → SM State} {g : State → Unit → Res State}
-    (h : Step Inv frame f g) (st : State) (hi : Inv st) : Sim (f st ()) (g st ()) ∧ ∀ st', g st () = .ok st' → Inv st' :=
-  ⟨(h st () hi).1, fun st' hst' => ((h st () hi).2 st' hst').1⟩
+    (h : Step Inv frame [()] f g) (st : State) (hi : Inv st) : Sim (f st ()) (g st ()) ∧ ∀ st', g st () = .ok st' → Inv st' :=
+  ⟨(h st () (List.mem_singleton.mpr rfl) hi).1, fun st' hst' => ((h st () (List.mem_singleton.mpr rfl) hi).2 st' hst').1⟩
 
 /-- `M`'s counterpart of `Block.process_block_rest` -/
 def modelTail (cfg : Config) (ctx : Ctx) (block : SignedBlock) (s : State) : Res State := do
@@ -547,11 +550,11 @@ theorem tail_sim {cfg : Config} {block : SignedBlock} {F : Fork} {Inv : Ctx → 
   · simp only [hp, if_true]
     exact Sim.pure _
   · simp only [hp, if_false]
-    cases block.sync_aggregate with
+    cases hsa : block.sync_aggregate with
     | none => exact sim_err _
     | some sa =>
       simp only [ofOpt, res_bind_ok]
-      exact ((H.sync c4 sa).unit s4 ir).1
+      exact ((H.sync c4 sa hsa).unit s4 ir).1
 
 /-- the invariant (for some context) after an accepted block -/
 theorem tail_inv {cfg : Config} {block : SignedBlock} {F : Fork} {Inv : Ctx → State → Prop} (H : OpSteps cfg block F Inv)
@@ -586,7 +589,7 @@ theorem tail_inv {cfg : Config} {block : SignedBlock} {F : Fork} {Inv : Ctx → 
           | some sa =>
             rw [hsa] at h
             simp only [ofOpt, res_bind_ok] at h
-            exact ⟨c4, ((H.sync c4 sa).unit s4 ir).2 s' h⟩
+            exact ⟨c4, ((H.sync c4 sa hsa).unit s4 ir).2 s' h⟩
       | err => rw [ho] at h; cases h
       | panic => rw [ho] at h; cases h
       | outOfFuel => rw [ho] at h; cases h
@@ -637,13 +640,13 @@ theorem processBlock_sim {cfg : Config} {block : SignedBlock} {F : Fork} {Inv : 
     exact tail_sim H ctx s1 i1
   | bellatrix =>
     simp only []
-    cases block.execution_payload with
+    cases hpl : block.execution_payload with
     | none => exact sim_err _
     | some payload =>
       simp only [ofOpt, res_bind_ok]
       by_cases hen : Block.is_execution_enabled cfg s1 payload = true
       · simp only [hen, if_true]
-        obtain ⟨p1, p1i⟩ := (H.payload ctx payload).unit s1 i1
+        obtain ⟨p1, p1i⟩ := (H.payload ctx payload hpl).unit s1 i1
         apply Sim.bind p1
         intro s2 hs2
         exact tail_sim H ctx s2 (p1i s2 hs2)
@@ -651,31 +654,31 @@ theorem processBlock_sim {cfg : Config} {block : SignedBlock} {F : Fork} {Inv : 
         exact tail_sim H ctx s1 i1
   | capella =>
     simp only []
-    cases block.execution_payload with
+    cases hpl : block.execution_payload with
     | none => exact sim_err _
     | some payload =>
       simp only [ofOpt, res_bind_ok, res_bind_assoc]
-      obtain ⟨w1, w1i⟩ := (H.withdrawals ctx payload).unit s1 i1
+      obtain ⟨w1, w1i⟩ := (H.withdrawals ctx payload hpl).unit s1 i1
       show Sim (Block.process_withdrawals cfg s1 payload >>= _ >>= _) _
       rw [bind_assoc]
       apply Sim.bind w1
       intro s2 hs2
-      obtain ⟨p1, p1i⟩ := (H.payload ctx payload).unit s2 (w1i s2 hs2)
+      obtain ⟨p1, p1i⟩ := (H.payload ctx payload hpl).unit s2 (w1i s2 hs2)
       apply Sim.bind p1
       intro s3 hs3
       exact tail_sim H ctx s3 (p1i s3 hs3)
   | deneb =>
     simp only []
-    cases block.execution_payload with
+    cases hpl : block.execution_payload with
     | none => exact sim_err _
     | some payload =>
       simp only [ofOpt, res_bind_ok, res_bind_assoc]
-      obtain ⟨w1, w1i⟩ := (H.withdrawals ctx payload).unit s1 i1
+      obtain ⟨w1, w1i⟩ := (H.withdrawals ctx payload hpl).unit s1 i1
       show Sim (Block.process_withdrawals cfg s1 payload >>= _ >>= _) _
       rw [bind_assoc]
       apply Sim.bind w1
       intro s2 hs2
-      obtain ⟨p1, p1i⟩ := (H.payload ctx payload).unit s2 (w1i s2 hs2)
+      obtain ⟨p1, p1i⟩ := (H.payload ctx payload hpl).unit s2 (w1i s2 hs2)
       apply Sim.bind p1
       intro s3 hs3
       exact tail_sim H ctx s3 (p1i s3 hs3)
